@@ -511,8 +511,9 @@ Definition spec (tm : N) (argv : list bytes) (opts : list doc_opt) (o : obs) : b
   well_formed o && (if spells argv opts then obs_eqb o (expected tm opts) && single_says opts o else true).
 
 (* ---------------------------------------------------------------- valid scenarios *)
-(* C strings; AtoI is only ever applied to at most 9 digits (more: signed overflow, excluded as for atoi) *)
+(* C strings shorter than 4 GiB; AtoI is only ever applied to at most 9 digits (more: signed overflow, excluded as for atoi) *)
 Definition arg_ok (a : bytes) : bool :=
   forallb (fun c => negb (c =? 0) && (c <? 256)) a &&
-  Nat.leb (digit_run (atoi_digits a)) 9 && Nat.leb (digit_run (atoi_digits (skipn 2 a))) 9.
+  Nat.leb (digit_run (atoi_digits a)) 9 && Nat.leb (digit_run (atoi_digits (skipn 2 a))) 9 &&
+  (N.of_nat (length a) <? 4294967296).
 Definition valid (tm : N) (argv : list bytes) : bool := forallb arg_ok argv && (tm <? 18446744073709551616).
